@@ -442,6 +442,31 @@ impl<'a, 'tcx> Cx<'a, 'tcx> {
                             return o;
                         }
                     }
+                } else if !c.has_non_region_param() {
+                    // tables of tuples / nested arrays / string slices: a structured dump
+                    if let Ok(cv) = c.eval(tcx, self.env, rustc_span::DUMMY_SP) {
+                        if let Some(v) = self.read_structured(cv, arr_ty, n, is_ref) {
+                            o.put("is_ref", J::Bool(is_ref));
+                            o.put("value", v);
+                            return o;
+                        }
+                    }
+                }
+            }
+        }
+        if let ty::Adt(adt, _) = ty.kind() {
+            if adt.is_struct() && !c.has_non_region_param() {
+                match c.eval(tcx, self.env, rustc_span::DUMMY_SP) {
+                    Ok(cv) => {
+                        if let Some(v) = self.read_struct_const(cv, ty) {
+                            o.put("value", v);
+                            return o;
+                        }
+                        o.put("dbg", J::s(format!("{:?}", cv)));
+                    }
+                    Err(_) => {
+                        o.put("dbg", J::s("eval error"));
+                    }
                 }
             }
         }
@@ -462,6 +487,142 @@ impl<'a, 'tcx> Cx<'a, 'tcx> {
         }
         o.put("opaque", J::s(with_no_trimmed_paths!(format!("{}", c))));
         o
+    }
+
+    /// structured constant (arrays / tuples of integers, bools, chars and &str), decoded from its allocation by layout
+    fn read_structured(&self, cv: mir::ConstValue, arr_ty: Ty<'tcx>, n: Option<u64>, is_ref: bool) -> Option<J> {
+        let tcx = self.tcx;
+        let (alloc_id, offset, count): (mir::interpret::AllocId, usize, Option<u64>) = match cv {
+            mir::ConstValue::Indirect { alloc_id, offset } if !is_ref => (alloc_id, offset.bytes() as usize, n),
+            mir::ConstValue::Slice { alloc_id, meta } if is_ref => (alloc_id, 0, Some(meta)),
+            mir::ConstValue::Scalar(mir::interpret::Scalar::Ptr(ptr, _)) if is_ref => {
+                let (prov, off) = ptr.into_raw_parts();
+                (prov.alloc_id(), off.bytes() as usize, n)
+            }
+            _ => return None,
+        };
+        let alloc = self.alloc_of(alloc_id)?;
+        let ety = match arr_ty.kind() {
+            ty::Array(e, _) => *e,
+            ty::Slice(e) => *e,
+            _ => return None,
+        };
+        let count = count? as usize;
+        if count > 8192 {
+            return None;
+        }
+        let esize = tcx.layout_of(self.env.as_query_input(ety)).ok()?.size.bytes() as usize;
+        let mut out = Vec::with_capacity(count);
+        for i in 0..count {
+            out.push(self.read_value(alloc, offset + i * esize, ety, 0)?);
+        }
+        Some(J::obj().set("arr", J::Arr(out)))
+    }
+
+    /// a by-value struct constant (Indirect allocation, or a scalar / scalar pair packed into an allocation-less value)
+    fn read_struct_const(&self, cv: mir::ConstValue, t: Ty<'tcx>) -> Option<J> {
+        match cv {
+            mir::ConstValue::Indirect { alloc_id, offset } => {
+                let alloc = self.alloc_of(alloc_id)?;
+                self.read_value(alloc, offset.bytes() as usize, t, 0)
+            }
+            _ => None,
+        }
+    }
+
+    fn alloc_of(&self, alloc_id: mir::interpret::AllocId) -> Option<mir::interpret::ConstAllocation<'tcx>> {
+        let tcx = self.tcx;
+        match tcx.global_alloc(alloc_id) {
+            mir::interpret::GlobalAlloc::Memory(a) => Some(a),
+            mir::interpret::GlobalAlloc::Static(def_id) => {
+                if tcx.is_mutable_static(def_id) {
+                    return None;
+                }
+                tcx.eval_static_initializer(def_id).ok()
+            }
+            _ => None,
+        }
+    }
+
+    fn read_value(&self, alloc: mir::interpret::ConstAllocation<'tcx>, off: usize, t: Ty<'tcx>, depth: usize) -> Option<J> {
+        let tcx = self.tcx;
+        if depth > 4 {
+            return None;
+        }
+        let layout = tcx.layout_of(self.env.as_query_input(t)).ok()?;
+        let size = layout.size.bytes() as usize;
+        let inner = alloc.inner();
+        if off + size > inner.len() {
+            return None;
+        }
+        if t.is_integral() || t.is_bool() || t.is_char() {
+            let bytes = inner.inspect_with_uninit_and_ptr_outside_interpreter(off..off + size);
+            let mut v: u128 = 0;
+            for k in 0..size {
+                v |= (bytes[k] as u128) << (8 * k);
+            }
+            let s = if t.is_signed() {
+                let sh = 128 - 8 * size as u32;
+                format!("{}", ((v << sh) as i128) >> sh)
+            } else {
+                format!("{}", v)
+            };
+            return Some(J::obj().set("int", J::s(s)).set("ty", J::s(ty_str(t))));
+        }
+        match t.kind() {
+            ty::Pat(base, _) => self.read_value(alloc, off, *base, depth + 1),
+            ty::Tuple(ts) => {
+                let mut items = Vec::new();
+                for (i, ft) in ts.iter().enumerate() {
+                    let fo = layout.fields.offset(i).bytes() as usize;
+                    items.push(self.read_value(alloc, off + fo, ft, depth + 1)?);
+                }
+                Some(J::obj().set("tuple", J::Arr(items)))
+            }
+            ty::Array(e, n) => {
+                let n = n.try_to_target_usize(tcx)? as usize;
+                if n > 8192 {
+                    return None;
+                }
+                let es = tcx.layout_of(self.env.as_query_input(*e)).ok()?.size.bytes() as usize;
+                let mut items = Vec::new();
+                for i in 0..n {
+                    items.push(self.read_value(alloc, off + i * es, *e, depth + 1)?);
+                }
+                Some(J::obj().set("arr", J::Arr(items)))
+            }
+            ty::Adt(adt, args) if adt.is_struct() => {
+                let mut items = Vec::new();
+                for (i, f) in adt.all_fields().enumerate() {
+                    let fty = f.ty(tcx, args);
+                    let fo = layout.fields.offset(i).bytes() as usize;
+                    let v = self.read_value(alloc, off + fo, fty, depth + 1)?;
+                    items.push(J::obj().set("name", J::s(f.name.as_str())).set("v", v));
+                }
+                Some(J::obj().set("struct", J::s(with_no_trimmed_paths!(tcx.def_path_str(adt.did())))).set("fields", J::Arr(items)))
+            }
+            ty::Ref(_, inner_ty, _) if inner_ty.is_str() => {
+                // fat pointer: (data pointer with provenance, length)
+                let psize = tcx.data_layout.pointer_size().bytes() as usize;
+                let prov = inner.provenance().get_ptr(rustc_abi::Size::from_bytes(off as u64))?;
+                let bytes = inner.inspect_with_uninit_and_ptr_outside_interpreter(off..off + 2 * psize);
+                let mut addr: u64 = 0;
+                let mut len: u64 = 0;
+                for k in 0..psize {
+                    addr |= (bytes[k] as u64) << (8 * k);
+                    len |= (bytes[psize + k] as u64) << (8 * k);
+                }
+                let target = self.alloc_of(prov.alloc_id())?;
+                let ti = target.inner();
+                let (a, l) = (addr as usize, len as usize);
+                if l > 4096 || a + l > ti.len() {
+                    return None;
+                }
+                let sb = ti.inspect_with_uninit_and_ptr_outside_interpreter(a..a + l);
+                Some(J::obj().set("str", J::s(String::from_utf8_lossy(sb).to_string())))
+            }
+            _ => None,
+        }
     }
 
     /// elements of an integer array constant (by value: Indirect allocation; by reference: pointer to an allocation or static)
